@@ -7,15 +7,17 @@ class C05(LogCheck):
     vfiles = VFILES + ["Properties/Properties_C05.v"]
     ocaml = OCAML
     corpus = "C05.txt"
-    level_text = ("Seventeen theorems proved in Coq for ALL compile-time minima, thresholds, filter expressions (and/or/not/null over any "
+    level_text = ("Twenty theorems proved in Coq for ALL compile-time minima, thresholds, filter expressions (and/or/not/null over any "
                   "number of threshold filters, incl. the not<not<F>> specialisation), severities, tags, item lists and sequence "
                   "sizes, over a Gallina model that follows stream.hpp/logger.hpp statement by statement (smart_stream's two "
                   "unique_ptrs, move construction along the << chain, destruction order of the temporaries, null_stream): the "
                   "trace of a statement in either syntactic form is exactly [calls; one Format; one Sink per member in declaration "
                   "order] carrying the statement's severity, tag and the concatenation of the items iff enabled and [] otherwise; "
                   "forms agree; whole programs (named streams with overlapping lifetimes, threshold changes) refine a spec of "
-                  "logical streams; records arrive in program order; the filter combinators are the boolean connectives. "
-                  "Tie: severity order and both >= comparisons are re-read from /repo on every run (Gen/GenSeverity.v, Tie/Tie_C05.v), "
+                  "logical streams; records arrive in program order; the filter combinators are the boolean connectives; runtime "
+                  "thresholds are keyed by (record type, filter index): configuring one record type's filter changes no statement, "
+                  "stream or getter of a logger over another record type. "
+                  "Tie: severity order, both >= comparisons and the storage of the threshold (a static member of severity_filter<Record, N>) are re-read from /repo on every run (Gen/GenSeverity.v, Tie/Tie_C05.v), "
                   "and the extracted model is diffed against a generated C++ program built from the working tree at each of the six "
                   "minima (ASan/UBSan) on the complete space of single statements (thorough) / a deterministic grid (quick) plus "
                   "random programs; an oracle extracted from the spec judges every differing observation")
@@ -26,8 +28,10 @@ class C05(LogCheck):
                   "attribute is not observed; single thread only (C09 covers the *_mt sinks); correspondence is exhaustive over "
                   "the finite statement space in the thorough tier and sampled for multi-statement programs, not proved")
     rule = ("cases are programs `m<min> op…` over: threshold changes, one-expression statements, named stream objects "
-            "(open/put/close in 4 variables) and stream-type queries, for 10 logger types (filter shapes of depth <= 3 over two "
-            "threshold filters and the null filter; 1-3 sequence members). quick: every (minimum, logger, relevant threshold "
+            "(open/put/close in 4 variables) and stream-type queries, for 12 logger types (filter shapes of depth <= 3 over two "
+            "threshold filters and the null filter; 1-3 sequence members; two record types with different attribute sets "
+            "sharing the filter indices, one of them without a tag attribute), threshold getters, and cross-record programs that "
+            "set one record type's threshold after/before the other's and log on both with severities between the two. quick: every (minimum, logger, relevant threshold "
             "setting, severity, form) with rotating item shapes/tags + all 118 item shapes x forms x tags x severities x minima "
             "under two loggers (incl. all ordered pairs of the 8 callable shapes) + every callable shape at every grid cell + random programs and statement sequences from VERIF_SEED; thorough: the complete single-statement "
             "space (all minima x loggers x relevant thresholds x severities x 2 forms x tag/no tag x every instantiated item "
